@@ -257,7 +257,10 @@ def rule_flush(chk, fb, eps):
     )
     memo = {}
     for d in eps:
-        b = fb.mir[d]
+        # a thin entry point that hands its path to one private body: the body is where the BufWriter lives
+        unit = save_unit(fb, d, {})[0]
+        chk.touch(d, unit)
+        b = fb.mir[unit]
         fl = Flow(fb, b)
         cfg = CFG(b)
         news = [(bi, t) for bi, t in fl.calls(lambda t: t.get("fn", "").startswith("std::io::BufWriter::<W>::new") or t.get("fn", "").startswith("std::io::BufWriter::<W>::with_capacity"))]
